@@ -145,9 +145,9 @@ PROPS = {
         rule="level A: lh_table with harness hash/equality, every assignment of hashes {0,1,2,3,5} to the keys x initial size 1..4, operations insert / insert(constant key) / "
              "delete / delete_entry / resize(1,size,2*size), BFS to a fix-point merged on (slot array incl. tombstones, order list, size); level B: json_object with keys "
              "{'', a, b, 300-byte, two keys searched to collide with 'a' modulo 16 and 32} x both string hashes x 4 seeds, from the empty object and from 10 insertions "
-             "(so the 16->32 growth is inside the bound), operations add / add_ex(KEY_IS_NEW) / add_ex(CONSTANT_KEY) / add NULL / del; oracle after every transition: "
+             ", 21 and 42 insertions (so the 16->32, 32->64 and 64->128 growths are inside the bound), operations add / add_ex(KEY_IS_NEW) / add_ex(CONSTANT_KEY) / add NULL / del; oracle after every transition: "
              "length, lookup of every key, 5 iteration forms, serialization, release set, and foreach-with-deletion at every position; non-trivial = distinct state",
-        bound=dict(quick="level A 3 keys (500 configurations) to fix-point; level B depth 4", thorough="level A 4 keys (2500 configurations) to fix-point; level B depth 6"),
+        bound=dict(quick="level A 3 keys (500 configurations) to fix-point; level B depth 4 from prefixes 0, 10, 21", thorough="level A 4 keys (2500 configurations) to fix-point; level B depth 6 (depth 5 from the 21- and 42-member prefixes)"),
         states_stat="states", transitions_stat="transitions",
         technique="explicit-state BFS of operation histories on the real hash table / object (ASan build) to a fix-point, ordered-map reference model",
         claim="every reachable table state (all collision patterns, tombstone chains, wrap-around, growth with tombstones) for the key universe was visited and compared with an "
